@@ -34,6 +34,9 @@ type Scenario struct {
 	Geom   *mgeom.Geom    `json:"geom"`
 	Edits  []simio.Edit   `json:"edits,omitempty"`
 	Read   simio.ReadPlan `json:"read"`
+	// HexEdits corrupt the hex text itself (odd length, characters that are
+	// not hex digits) on its way to the hex decoders.
+	HexEdits []simio.Edit `json:"hex_edits,omitempty"`
 }
 
 // Dangerous reports whether a broken limit check could let this scenario
@@ -41,6 +44,10 @@ type Scenario struct {
 func (s *Scenario) Dangerous() bool {
 	for _, e := range s.Edits {
 		if e.K == "u32" && e.V > 1<<22 {
+			return true
+		}
+		if e.K == "insert" && e.N == 1 {
+			// arbitrary bytes may hold any count
 			return true
 		}
 	}
@@ -63,7 +70,7 @@ func (prop) Plan(tier string) []core.Phase {
 func (prop) Describe() core.Description {
 	return core.Description{
 		Level: "exploration",
-		Rule: "A scenario is a generated valid geometry, a codec (wkb, wkb NaN mode, ewkb) x byte order, a limit vector (each level disabled or drawn from {0,1,2,3,8,64,1000}) and a closed edit list applied to the reference encoding: truncate, flip 1-3 bits, set a byte, forge a count field (values around the level's limit, around the true count, 2^16, 2^20, 2^22, 2^31-1, 2^31, 2^32-1 — with the level's limit disabled only values the remaining input can back), forge a type word (unknown ids, 15-17, dimension codes >= 4000, stray EWKB flag bits, another valid type => child type mismatch, another dimension => child layout mismatch), forge the byte-order byte, toggle the EWKB SRID flag, duplicate/drop/replace a whole sub-geometry. The edited bytes go through Unmarshal (metered), Read over a seeded read plan, hex Decode and Scan. Phase 'trunc' decodes every proper prefix of one encoding. A run is non-trivial when at least one edit changed the bytes (or, in 'trunc', the encoding is non-empty) and the decoders were actually called. Streams whose count field exceeds what the remaining input can back while that level's limit is disabled are generated but not executed (the property's own carve-out) and are counted as skipped.",
+		Rule: "A scenario is a generated valid geometry, a codec (wkb, wkb NaN mode, ewkb) x byte order, a limit vector (each level disabled or drawn from {0,1,2,3,8,64,1000}) and a closed edit list applied to the reference encoding: truncate, flip 1-3 bits, set a byte, forge a count field (values around the level's limit, around the true count, 2^16, 2^20, 2^22, 2^31-1, 2^31, 2^32-1 — with the level's limit disabled only values the remaining input can back), forge a type word (unknown ids, 15-17, dimension codes >= 4000, stray EWKB flag bits, another valid type => child type mismatch, another dimension => child layout mismatch), forge the byte-order byte, toggle the EWKB SRID flag, duplicate/drop/replace a whole sub-geometry, replace everything after a field boundary by arbitrary bytes; in 15% of the runs the hex text handed to the hex decoders is itself corrupted (cut to odd length, characters that are not hex digits). The edited bytes go through Unmarshal (metered), Read over a seeded read plan, hex Decode and Scan. Phase 'trunc' decodes every proper prefix of one encoding. A run is non-trivial when at least one edit changed the bytes (or, in 'trunc', the encoding is non-empty) and the decoders were actually called. Streams whose count field exceeds what the remaining input can back while that level's limit is disabled are generated but not executed (the property's own carve-out) and are counted as skipped.",
 		StateMeasure: "distinct (codec, limit vector, shadow-parser class, too-large level, edit-kind multiset, root type) tuples",
 		Assumptions: []string{
 			"the shadow parser in sim/refwkb classifies edited bytes correctly as ok / too-large / error / unspecified / unbacked",
@@ -110,6 +117,11 @@ func (prop) Decode(raw []byte) (any, error) {
 		}
 		if e.Off < 0 || e.N < 0 || e.N > 1<<16 || len(e.Hex) > 1<<14 {
 			return nil, fmt.Errorf("bad edit")
+		}
+	}
+	for _, e := range s.HexEdits {
+		if (e.K != "truncate" && e.K != "set") || e.Off < 0 || e.V > 255 {
+			return nil, fmt.Errorf("bad hex edit")
 		}
 	}
 	return &s, nil
@@ -192,7 +204,21 @@ func (prop) Generate(r *prng.Rand, phase string) any {
 	}
 	nedits := r.Pick(0, 6, 3, 1)
 	for i := 0; i < nedits; i++ {
-		switch r.Pick(3, 3, 2, 8, 4, 1, 1, 2, 2, 2) {
+		switch r.Pick(3, 3, 2, 8, 4, 1, 1, 2, 2, 2, 2) {
+		case 10: // everything after some field boundary is replaced by arbitrary bytes
+			f := fields[r.Intn(len(fields))]
+			k := f.Off
+			if r.Chance(0.7) {
+				k = f.Off + f.Len
+			}
+			tail := make([]byte, r.Range(1, 48))
+			for j := range tail {
+				tail[j] = byte(r.Intn(256))
+				if r.Chance(0.5) {
+					tail[j] = byte(r.Intn(4)) // small numbers make plausible headers and counts
+				}
+			}
+			s.Edits = append(s.Edits, simio.Edit{K: "truncate", Off: k}, simio.Edit{K: "insert", Off: k, Hex: hex.EncodeToString(tail), N: 1})
 		case 0:
 			s.Edits = append(s.Edits, simio.Edit{K: "truncate", Off: r.Intn(len(ref) + 1)})
 		case 1:
@@ -284,6 +310,18 @@ func (prop) Generate(r *prng.Rand, phase string) any {
 				rg := ranges[1+r.Intn(len(ranges)-1)]
 				s.Edits = append(s.Edits, simio.Edit{K: "drop", Off: rg.Start, N: rg.End - rg.Start}, simio.Edit{K: "insert", Off: rg.Start, Hex: hex.EncodeToString(other)})
 			}
+		}
+	}
+	if r.Chance(0.15) {
+		for i := r.Range(1, 2); i > 0; i-- {
+			e := simio.Edit{Off: r.Intn(2*len(ref) + 2)}
+			if r.Chance(0.4) {
+				e.K = "truncate"
+			} else {
+				e.K = "set"
+				e.V = uint32([]byte{'g', 'G', 'x', ' ', '-', 0, 0xff, 'Z', '\n', '0', 'f'}[r.Intn(11)])
+			}
+			s.HexEdits = append(s.HexEdits, e)
 		}
 	}
 	return s
@@ -557,6 +595,30 @@ func (prop) Execute(scAny any, phase string, log *core.Log) core.Result {
 	res.Steps++
 	if !outcome(&res, "hex Decode", v, lib, data, g, derr, -1, "") {
 		return res
+	}
+	if len(s.HexEdits) > 0 {
+		// the hex text itself arrives corrupted
+		hb, hfired := simio.Apply([]byte(hx), s.HexEdits)
+		res.Count("edit:hex-text", int64(hfired))
+		hv := refwkb.Verdict{Class: refwkb.CUnspecified, Why: "corrupted hex text"}
+		hdata := hb
+		if raw, herr := hex.DecodeString(string(hb)); herr == nil {
+			// still hex: it stands for these bytes
+			hv = refwkb.Decode(s.Codec, s.Limits, raw)
+			hdata = raw
+		} else {
+			res.Count("probe:invalid-hex-text", 1)
+		}
+		if hv.Class != refwkb.CUnbacked {
+			if p := core.Guard(func() { g, derr = lib.HexDecode(string(hb)) }); p != "" {
+				res.Fail("panic", "panic:hexdecode:"+core.PanicSite(p), "hex Decode panicked on the text %q: %s", short(hb), p)
+				return res
+			}
+			res.Steps++
+			if !outcome(&res, "hex Decode (corrupted text)", hv, lib, hdata, g, derr, -1, "") {
+				return res
+			}
+		}
 	}
 	// 4. SQL scanners
 	if lib.HasSQL() && len(data) > 0 {
